@@ -16,6 +16,8 @@ import (
 
 func init() { runners["c09"] = runC09 }
 
+var c09Hangs int
+
 // doDeadline runs a request with a watchdog: hung = no answer within the deadline
 func doDeadline(h http.Handler, rq Req, d time.Duration) (Resp, bool) {
 	ch := make(chan Resp, 1)
@@ -557,6 +559,13 @@ func runC09(tier string, seed uint64) {
 				stat(fmt.Sprintf("status-%d", r.Status))
 				nontrivial(fmt.Sprint(kind, cfg.name, r.Status, errCode(r.Body), strings.SplitN(desc, " ", 2)[0], len(rq.Header)))
 				if hung {
+					// a request that never returns leaves its goroutine (possibly spinning) and its locks behind: the
+					// second such report settles the run; what has been written is the replay
+					if c09Hangs++; c09Hangs >= 2 {
+						out.Flush()
+						writeStats(statsPath)
+						os.Exit(0)
+					}
 					break
 				}
 				// canary: the server still answers correct requests, on another and on the same bucket
